@@ -422,6 +422,24 @@ func genC15(t *rapid.T) *c15Case {
 		c.Groups = append(c.Groups, g)
 	}
 	c.Perm = int64(rapid.IntRange(1, 1<<20).Draw(t, "perm"))
+	if bg := rapid.IntRange(0, 19).Draw(t, "bigGroup"); bg == 7 {
+		// one discovered group with hundreds of entries (a big endpoints object), some entries repeated far apart
+		n := rapid.IntRange(280, 700).Draw(t, "bigN")
+		g := grpSpec{Source: "src-big", Labels: map[string]string{"zone": "big"}}
+		for i := 0; i < n; i++ {
+			g.Targets = append(g.Targets, map[string]string{"__address__": fmt.Sprintf("10.2.%d.%d:9100", i/200, i%200)})
+		}
+		for k := rapid.IntRange(1, 3).Draw(t, "bigDups"); k > 0; k-- {
+			maxFrom := n / 3
+			if maxFrom > n-258 {
+				maxFrom = n - 258
+			}
+			from := rapid.IntRange(0, maxFrom).Draw(t, fmt.Sprintf("bigDupFrom%d", k))
+			to := from + 257 + rapid.IntRange(0, n-from-258).Draw(t, fmt.Sprintf("bigDupTo%d", k))
+			g.Targets[to] = map[string]string{"__address__": g.Targets[from]["__address__"]}
+		}
+		c.Groups = append(c.Groups, g)
+	}
 	if rapid.IntRange(0, 3).Draw(t, "jobLabels") == 0 {
 		// every group carries a discovered job label (file_sd / static labels): the targets' job is not the job_name
 		for i := range c.Groups {
